@@ -23,4 +23,5 @@ Fixpoint cfg_eval (enabled : list string) (e : cfgexpr) : bool :=
 
 (** the conversion macros of src/newtype_macros.rs *)
 (** TrySPN: TryFrom a signed primitive whose non-negative range fits (added by the D2 repair) *)
-Inductive conv_kind := FromNN | FromNP | FromPN | TryNN | TryPN | TrySPN.
+(** [CFrom]: an [impl From<S> for D]; [CTry]: an [impl TryFrom<S> for D] *)
+Inductive conv_kind := CFrom | CTry.
